@@ -1785,33 +1785,38 @@ def match_expr(expr, pattern, tks, result=None):
     elif expr.is_cond():
         if not pattern.is_cond():
             return False
-        if match_expr(expr.cond, pattern.cond, tks, result) is False:
-            return False
-        if match_expr(expr.src1, pattern.src1, tks, result) is False:
-            return False
-        if match_expr(expr.src2, pattern.src2, tks, result) is False:
-            return False
-        return result
+        sub_matches = [
+            (expr.cond, pattern.cond),
+            (expr.src1, pattern.src1),
+            (expr.src2, pattern.src2),
+        ]
 
     elif expr.is_compose():
         if not pattern.is_compose():
             return False
-        for sub_expr, sub_pattern in zip(expr.args, pattern.args):
-            if  match_expr(sub_expr, sub_pattern, tks, result) is False:
-                return False
-        return result
+        if len(expr.args) != len(pattern.args):
+            return False
+        sub_matches = list(zip(expr.args, pattern.args))
 
     elif expr.is_assign():
         if not pattern.is_assign():
             return False
-        if match_expr(expr.src, pattern.src, tks, result) is False:
-            return False
-        if match_expr(expr.dst, pattern.dst, tks, result) is False:
-            return False
-        return result
+        sub_matches = [
+            (expr.src, pattern.src),
+            (expr.dst, pattern.dst),
+        ]
 
     else:
         raise NotImplementedError("match_expr: Unknown type: %s" % type(expr))
+
+    # Every sub expression has to match. Use a copy of result, in order to
+    # leave it untouched if one of them does not
+    myresult = dict(result)
+    for sub_expr, sub_pattern in sub_matches:
+        if match_expr(sub_expr, sub_pattern, tks, myresult) is False:
+            return False
+    result.update(myresult)
+    return result
 
 
 def MatchExpr(expr, pattern, tks, result=None):
